@@ -294,7 +294,14 @@ def run_group(fn, part, timeout_ms=60000):
 
 def run_all(part, tier, kinds, harness):
     """discharge the obligation groups whose kind is in `kinds`; candidate cases are tagged with `harness`"""
-    problems = validate()
+    try:
+        problems = validate()
+    except TranslationRefused as e:
+        # the current source of a kernel uses a construct outside the translated subset: engine T decides nothing on
+        # this tree (the CrossHair harnesses of the same property still run); recorded, never guessed
+        part.counts['t_refused'] += 1
+        part.records.append({'condition': 'engine T', 'verdict': 'refused', 'detail': 'translator validation: %s' % e})
+        return
     for pb in problems:
         part.errors.append('engine T translator validation failed: ' + pb)
     if problems:
